@@ -3437,6 +3437,10 @@ def run(ctx):
     ctx.log("interval streams done")
     normalize_stream(ctx, I, ctx.scale(500, 8000))
     ctx.log("normalize stream done")
+    from harness.props import c19_poly
+    c19_poly.poly_model_stream(ctx, I, sys.modules[__name__], ctx.scale(700, 8000))
+    c19_poly.poly_examples_stream(ctx, I, sys.modules[__name__], ex_strings, ctx.scale(400, 5000))
+    ctx.log("normalize model (polynomial fragment) streams done")
     linearity_stream(ctx, I, ctx.scale(300, 4000))
     rule_models_stream(ctx, I, ctx.scale(60, 900))
     rule_models2_stream(ctx, I, ctx.scale(60, 900))
